@@ -322,6 +322,13 @@ def rewrite_fn(text, contract, report, make_pub=True):
             raise ExtractError(f"R8 substitution anchor not found in {contract['name']}: {a!r}")
         text = text.replace(a, b)
         report.append({"rule": "R8", "before": a, "after": b})
+    for (a, b, new) in contract.get("cut", []):
+        i = text.find(a)
+        j = text.find(b, i + len(a)) if i >= 0 else -1
+        if i < 0 or j < 0:
+            raise ExtractError(f"R8 cut anchors not found in {contract['name']}: {a!r} .. {b!r}")
+        report.append({"rule": "R8-cut", "before": text[i:j + len(b)], "after": new})
+        text = text[:i] + new + text[j + len(b):]
     st = sig(scan(text))
     # locate fn keyword, signature pieces
     fi = next(i for i, t in enumerate(st) if t.text == "fn")
